@@ -50,7 +50,7 @@ Elems == 1..c.a
 
 \* ---- the cases -----------------------------------------------------------
 \* k: the k-th call of next() panics (0: never).  l1, l2: what len() / the lower size hint say at the
-\* first and second time the constructor asks.  lo/up: first size_hint (up = 99 stands for None).
+\* first and second time the constructor asks.  lo/up: first size_hint (up = 99 stands for None, 98 for a correct but huge bound).
 \* reported values within 2 of the actual length
 Near(a) == (IF a >= 2 THEN a - 2 ELSE 0)..(a + 2)
 Mk(ctor, a, k, l1, l2, lo, up, cap, f) ==
@@ -61,11 +61,11 @@ FaultCases ==
     On("fhi", UNION {{Mk("fhi", a, k, l, l, l, l, a, f) : k \in 0..(a + 2), l \in Near(a), f \in BOOLEAN} : a \in FaultLens}) \cup
     On("thin", UNION {{Mk("thin", a, k, l1, l2, l1, l1, a, FALSE) : k \in 0..(a + 2), l1 \in Near(a), l2 \in Near(a)} : a \in FaultLens}) \cup
     On("collect", UNION {{Mk("collect", a, k, lo, l2, lo, up, a, FALSE) :
-                            k \in 0..(a + 2), lo \in Near(a) \cup {0}, up \in Near(a) \cup {99}, l2 \in Near(a)} : a \in FaultLens})
+                            k \in 0..(a + 2), lo \in Near(a) \cup {0}, up \in Near(a) \cup {98, 99}, l2 \in Near(a)} : a \in FaultLens})
 \* honest inputs, for every length (well beyond any internal boundary)
 HonestCases ==
     {Mk(ct, a, 0, a, a, a, a, a, FALSE) : ct \in {"fhi", "thin", "slice", "str"}, a \in Lens} \cup
-    UNION {{Mk("collect", a, 0, h[1], a, h[1], h[2], a, FALSE) : h \in {<<a, a>>, <<0, 99>>, <<0, a + 1>>, <<a, 99>>}} : a \in Lens} \cup
+    UNION {{Mk("collect", a, 0, h[1], a, h[1], h[2], a, FALSE) : h \in {<<a, a>>, <<0, 99>>, <<0, a + 1>>, <<a, 99>>, <<0, 98>>, <<a, 98>>}} : a \in Lens} \cup
     {Mk("vec", a, 0, a, a, a, a, a + s, FALSE) : a \in Lens, s \in {0, 1, 7}}
 \* a comparison / hash / format impl of the payload panics while a handle of kind k is being
 \* compared, hashed or formatted (k indexes the harness's list of (handle kind, trait method))
